@@ -26,6 +26,7 @@ def main():
         sys.exit(mod.replay(v) if hasattr(mod, 'replay') else generic_replay(v))
     ctx = runner.Ctx(a.pid, tier, seed)
     if a.no_proof:
+        runner.EVIDENCE_DIR = os.path.join(runner.VERIF, 'evidence', 'noproof')      # development runs never overwrite the evidence of record
         proof = {'obligations': 0, 'discharged': 0, 'problems': [], 'axioms': [], 'theorems': []}
     else:
         proof = runner.proof_step(a.pid, tier)
